@@ -144,6 +144,11 @@ def targets(fns):
             raise ParseError("impl %s<%s> for %s not found" % (tr, frm, to))
         out.append({"name": "g_%s_%s_%s" % (tr, TY[frm][2], TY[to][2]), "entry": e, "self_type": to, "opcode": op,
                     "args": [(e["params"][0], frm)], "runner": runner, "what": "impl %s<%s> for %s" % (tr, frm, to)})
+    # ordering of quantities (asserts equal units first)
+    e = find("Quantity", "partial_cmp", "PartialOrd", None)
+    if e is None: raise ParseError("impl PartialOrd for Quantity not found")
+    out.append({"name": "g_PartialOrd_QQ", "entry": e, "self_type": "Quantity", "opcode": 13, "args": [("self", "Quantity"), (e["params"][0], "Quantity")],
+                "runner": "val", "what": "impl PartialOrd for Quantity"})
     for (ty, fn), (op, runner, argt, has_self) in INH.items():
         e = find(ty, fn, None, None)
         if e is None:
